@@ -53,6 +53,19 @@ I = [
     ['meta', {'metadata': {'k': 1}, 'meta_format': ''}],
     ['meta', {'metadata': {'k': 1}, 'meta_format': 'JSON'}],
     ['preamble', {'text': 'x', 'line_endings': 'uni'}],
+    ['meta', {'metadata': {'k': 1}, 'line_endings': ''}],
+    ['meta', {'metadata': {'k': 1}, 'line_endings': 0}],
+    ['meta', {'metadata': {'k': 1}, 'line_endings': False}],
+    ['meta', {'metadata': {'k': 1}, 'line_endings': 'mac'}],
+    ['preamble', {'text': 'x', 'line_endings': ''}],
+    ['diff', {'content': b'x\n', 'line_endings': ''}],
+    ['preamble', {'text': 'x', 'mimetype': 'text/plain; charset=utf-8'}],
+    ['preamble', {'text': 'x', 'mimetype': 'text/markdown;variant=GFM'}],
+    ['preamble', {'text': 'x', 'mimetype': ' text/plain'}],
+    ['preamble', {'text': 'x', 'mimetype': ''}],
+    ['diff', {'content': b'x\n', 'diff_type': 'text;x'}],
+    ['diff', {'content': b'x\n', 'diff_type': ''}],
+    ['meta', {'metadata': {'k': 1}, 'meta_format': 'json;v=1'}],
     ['preamble', {'text': 'x', 'mimetype': 'text/'}],
     ['diff', {'content': b'x\n', 'diff_type': 'bin'}],
     ['diff', {'content': b'x\n', 'line_endings': 'do'}],
@@ -361,7 +374,7 @@ def checks():
             'exhaustive', chunks, run_chunk, run_case=run_case,
             rule='all call sequences over the 5 operations with valid '
                  'arguments up to length LV, and all sequences over 10 valid '
-                 '+ 34 invalid-argument variants (wrong types, empty content, '
+                 '+ 47 invalid-argument variants (wrong types, empty content, '
                  'bad option values, unencodable text incl. lone surrogates, '
                  'unknown and non-text codecs) up to length LA; per step: '
                  'accepted iff the section may follow (my table) and the '
